@@ -15,7 +15,7 @@ META = {
                  ['xrspatial.convolution.convolution_2d', 'xrspatial.convolution._convolve_2d_numpy', 'xrspatial.convolution.custom_kernel'],
     'bounds': {'quick': 'rasters 3x3 / 3x4 / 2x4 (NaN allowed); apply: kernel entries symbolic in {0,1} for shapes 3x3, 1x3, 3x1, 3x5 (kernel wider than the raster '
                         'included) - all 0/1 masks of a shape in one run; reducers mean, sum, min, max, range, var, std and two position-sensitive user reducers; '
-                        'focal mean: 2x3, passes 0..2, excludes [nan], [e], [nan, e]; convolution: symbolic weights 3x3, 1x3, 3x1; hotspots: 3x4 and 2x4',
+                        'focal mean: 2x3, passes 0..2, excludes [nan], [e], [nan, e]; convolution: symbolic weights 3x3, 1x3, 3x1; hotspots: 3x4 and 2x4; int32 / uint8 rasters for apply, focal_stats, mean (1 pass) and convolution_2d',
                'thorough': 'plus 4x4 rasters, 5x3 kernels, passes 3'},
     'stubs': ['numba.jit = identity, prange = range', 'np.nan* reductions = ite-folding over NaN flags', 'sqrt Ackermannised (s>=0, s*s==x for the std claim)'],
     'outside': ['float32 rounding of sums', 'CUDA paths', 'rasters / kernels larger than the bound'],
